@@ -11,6 +11,7 @@ THEOREMS = [
     "C17.rn_mono", "C17.rn_relerr", "C17.sym_zp_zero", "C17.scale_pos", "C17.zero_exact",
     "C17.q_in_range", "C17.q_mono", "C17.q_dq_ideal", "C17.dq_q_ideal", "C17.cover_ideal",
     "C17.zp_in_range", "C17.q_dq_rounded", "C17.dq_q_rounded",
+    "C17.q_in_range_64", "C17.saturates_high_64", "C17.d34_pinned_wraps",
 ]
 
 
@@ -132,6 +133,30 @@ def bias_case(ctx, drv, rng):
         eff = np.squeeze(np.asarray(r1[1]) * np.asarray(r2[1])).reshape(-1)
         if not np.array_equal(np.asarray(r.scale).reshape(-1), eff):
             ctx.fail("bias scale is not input scale x weight scale", replay, "bias-scale")
+        # codes inside the (narrow, symmetric) range of the bias type, equal to round(bias/scale) unless that saturates, monotone
+        from fractions import Fraction
+        bbits = 64 if inbits == 16 else 32
+        bound = 2 ** (bbits - 1) - 1
+        qd = [int(v) for v in np.asarray(r.quantized_data).reshape(-1)]
+        sc = [Fraction(float(v)) for v in np.broadcast_to(np.asarray(r.scale).reshape(-1), (len(qd),))]
+        exact = [Fraction(float(b)) / s_ if s_ != 0 else None for b, s_ in zip(np.asarray(bias).reshape(-1), sc)]
+        for k, (q_, e_) in enumerate(zip(qd, exact)):
+            if abs(q_) > bound:
+                ctx.fail(f"quantized bias {q_} outside the symmetric range of int{bbits}", replay, "bias-range")
+                break
+            if e_ is None:
+                continue
+            # float rounding of bias/scale before rint: allow 1 ulp of the working precision (float64 for 32-bit scales product)
+            slack = Fraction(1, 2) + abs(e_) * Fraction(1, 2 ** 20)
+            sat = abs(e_) >= bound - slack
+            if (not sat and abs(q_ - e_) > slack) or (sat and (abs(q_) < bound - abs(e_) * Fraction(1, 2 ** 20) - 1 or (q_ > 0) != (e_ > 0))):
+                ctx.fail(f"quantized bias {q_} is not round(bias/scale) = {float(e_):.6g} (saturating at +-{bound})", replay, "bias-value")
+                break
+        if not per_channel and len(qd) > 1:
+            order = np.argsort(np.asarray(bias).reshape(-1), kind="stable")
+            qs_sorted = [qd[i] for i in order]
+            if any(a > b for a, b in zip(qs_sorted, qs_sorted[1:])):
+                ctx.fail("bias quantization is not monotone", replay, "bias-monotone")
 
 
 def run(ctx):
@@ -140,7 +165,7 @@ def run(ctx):
                 "bit-exactly with the Lean model and checked by the C17 oracle; distinct = distinct canonical inputs")
     ctx.explanation = ("Theorems (QProps/C17.lean) are proved for all rationals / all integer codes over the model; the float32 claims use the "
                        "proved standard-model properties of the model's rounding operator. Correspondence ties the model to the code bit for bit.")
-    common.proof_side(ctx, THEOREMS, modules=["QProps.C17", "QProps.C17b"])
+    common.proof_side(ctx, THEOREMS, modules=["QProps.C17", "QProps.C17b", "QProps.C17c"])
     drv = common.Driver()
     rng = ctx.rng
     n_par = 700 if ctx.tier == "quick" else 4000
